@@ -141,6 +141,9 @@ def _stmt_list(draw, depth, budget, flags, in_loop=False, min_stmts=1):
                     inner.append(["gen", draw(st.sampled_from(flags["flavors"])), 0, [-1], other])
             if depth > 0 and draw(st.integers(0, 3)) == 0:
                 inner = [["for", inner]]
+                if draw(st.integers(0, 2)) == 0:
+                    st_ = draw(st.sampled_from([1, 2, 3, 8]))
+                    inner[0].append([0, draw(st.integers(1, 2 * st_ + 1)), st_])
             out.extend(inner)
             if draw(st.integers(0, 4)) == 0:
                 out.append(["bar"])
@@ -187,7 +190,12 @@ def _stmt_list(draw, depth, budget, flags, in_loop=False, min_stmts=1):
         elif k == "dealloc":
             out.append(["dealloc", draw(st.integers(0, 3))])
         elif k == "for":
-            out.append(["for", draw(_stmt_list(depth - 1, max(1, budget // 2), flags, True))])
+            f_ = ["for", draw(_stmt_list(depth - 1, max(1, budget // 2), flags, True))]
+            if draw(st.integers(0, 3)) == 0:
+                # constant bounds (lb, ub, step), the range need not be a multiple of the step
+                lb_, st_ = draw(st.sampled_from([0, 0, 1, 4])), draw(st.sampled_from([1, 2, 3, 8]))
+                f_.append([lb_, lb_ + draw(st.integers(0, 2 * st_ + 1)), st_])
+            out.append(f_)
         elif k == "if":
             cond = draw(st.one_of(st.tuples(st.just("p"), st.integers(0, 2)).map(list),
                                   st.tuples(st.just("iv"), st.sampled_from([0, 1, 2, 4]), st.integers(0, 2)).map(list)))
@@ -529,7 +537,15 @@ def build(recipe, func_name="main", tag_start=0, visibility=None, callees=()) ->
                 loop_args.append(ub)
                 iv = fresh("i")
                 body = emit(s[1], sc.child(iv), ind + 1, depth + 1, in_branch)
-                out.append(f'{pad}"scf.for"(%c0, {ub}, %c1) ({{')
+                lbn, stn = "%c0", "%c1"
+                if len(s) > 2 and s[2]:
+                    lbn, ub, stn = fresh("klb"), fresh("kub"), fresh("kst")
+                    for nm_, v_ in zip((lbn, ub, stn), s[2]):
+                        out.append(f'{pad}{nm_} = "arith.constant"() <{{value = {v_} : index}}> : () -> index')
+                    b.features.add("const_bounds_loop")
+                    if (s[2][1] - s[2][0]) % s[2][2]:
+                        b.features.add("const_bounds_loop_partial_last_step")
+                out.append(f'{pad}"scf.for"({lbn}, {ub}, {stn}) ({{')
                 out.append(f'{pad}^bb0({iv}: index):')
                 out.extend(body)
                 out.append(f'{pad}  "scf.yield"() : () -> ()')
